@@ -284,7 +284,7 @@ def step_harness(ctx, name, n, m):
         ctx.validate(f"run[{name}]", {"val": oval, "jac": ojac}, case, model=mod, true_functions=True,
                      rtol=1e-6, atol=1e-8)
     ctx.sample({"op": name, "domain": note, "n": n, "m": m, "path": ctx.idx,
-                "val0": str(oval[0])[:120], "jac00": str(ojac[0, 0])[:160]})
+                "val0": str(oval[0])[:120] if np.size(oval) else "", "jac00": str(ojac[0, 0])[:160] if np.size(ojac) else ""})
     return None
 
 
